@@ -928,5 +928,12 @@ func init() {
 		x.Add(&Family{Name: "transfer-segmentation", Quick: 48, Thor: 800, Run: transferFamily})
 		x.Add(&Family{Name: "folder-upload-segmentation", Quick: 28, Thor: 400, Run: folderUploadFamily})
 		x.Add(&Family{Name: "fixed-header-partitions", Quick: 6, Thor: 32, Run: fixedHeaderFamily})
+		x.rule += "; accept loops (wave d): the real Serve / ServeFileTransfers on loopback TCP listeners, fresh server per delivery, client from its own 127.x.y.z address: sessions (clean, truncated tail, wrong password, invalid handshake) and flattened-file uploads delivered all at once, with a first TCP segment of 1..3 bytes, a cut inside / at the end of the 12- or 16-byte header, one byte at a time through the header, random pieces (TCP_NODELAY, a pause after each write); non-trivial = logged-in session / every upload; distinct = (stream, cuts)"
+		x.assume = append(x.assume, "accept-loop families: the pauses between TCP writes make it likely, not certain, that the server's reads see the pieces separately; coalescing can hide a defect there, it cannot raise an alarm")
+		for _, f := range c02Extra {
+			f(x)
+		}
 	}
 }
+
+var c02Extra []func(x *Ctx)
